@@ -141,8 +141,13 @@ M = [
         );
         Ok(())
     }'''),
+    # 15. the swallowing call is hidden in a macro_rules body (not parsed by syn): the translator must refuse the tree
+    ('macro_hidden', 'src/primitives/rectangle/styled.rs',
+     'target.fill_solid(&top_border, stroke_color)?;',
+     'quiet_fill!(target, &top_border, stroke_color);'),
 ]
-PRE = {'BENIGN_new_helper': ('fn dot_positions_with_dotted_corners(', 'fn draw_sides<D: DrawTarget>(t: &mut D, l: &Rectangle, r: &Rectangle, c: D::Color) -> Result<(), D::Error> {\n    t.fill_solid(l, c)?;\n    t.fill_solid(r, c)\n}\n\nfn dot_positions_with_dotted_corners('),
+PRE = {'macro_hidden': ('fn dot_positions_with_dotted_corners(', 'macro_rules! quiet_fill {\n    ($t:expr, $r:expr, $c:expr) => {\n        let _ = $t.fill_solid($r, $c);\n    };\n}\n\nfn dot_positions_with_dotted_corners('),
+       'BENIGN_new_helper': ('fn dot_positions_with_dotted_corners(', 'fn draw_sides<D: DrawTarget>(t: &mut D, l: &Rectangle, r: &Rectangle, c: D::Color) -> Result<(), D::Error> {\n    t.fill_solid(l, c)?;\n    t.fill_solid(r, c)\n}\n\nfn dot_positions_with_dotted_corners('),
        'helper_without_result': ('fn dot_positions_with_dotted_corners(', 'fn fill_quietly<D: DrawTarget>(t: &mut D, r: &Rectangle, c: D::Color) {\n    t.fill_solid(r, c).ok();\n}\n\nfn dot_positions_with_dotted_corners('),
        'polyline_thick_continue': ('for line in ScanlineIterator::new(polyline, style) {', 'let mut first = None;\n    for line in ScanlineIterator::new(polyline, style) {')}
 
